@@ -126,7 +126,9 @@ func main() {
 							continue
 						}
 						if !want {
-							if !refused {
+							// refused = the access FAILED; which error value reports it is not part of the property.
+							// (A read that answers "not found" for a key the view may not read fails too and reveals nothing.)
+							if err == nil {
 								r.Violation("C05:undeclared-access-allowed", fmt.Sprintf("%s on %s with permission %d (exists=%v) was not refused: err=%v value=%q", a, rig.KeyName(key), perm, keyExists, err, got), rep)
 								continue
 							}
@@ -205,7 +207,7 @@ func main() {
 						r.Violation("C05:declared-access-refused", fmt.Sprintf("permission %d, key exists at start=%v, sequence %s: step %d refused", p, exists, desc, si), rep)
 						break
 					}
-					if !want && !refused {
+					if !want && err == nil {
 						r.Violation("C05:undeclared-access-allowed", fmt.Sprintf("permission %d, key exists at start=%v, sequence %s: step %d (%s, key exists now=%v) was not refused (err=%v)", p, exists, desc, si, st.a, has, err), rep)
 						break
 					}
